@@ -218,6 +218,11 @@ func collectDeps(v ssa.Value, f *Fact) {
 		case *ssa.UnOp:
 			if x.Op == token.MUL {
 				f.loads = append(f.loads, x)
+				if al, ok := x.X.(*ssa.Alloc); ok && !al.Heap {
+					if src := loadSource(x); src != nil {
+						walk(src, d+1)
+					}
+				}
 			}
 		case *ssa.Call:
 			f.calls = append(f.calls, x)
@@ -475,6 +480,7 @@ func (w *World) expandSummaries(fs []Fact, depth int) []Fact {
 						x = replaceIdent(x, p.Name(), render(c.Call.Args[i]))
 					}
 				}
+				x = renormCmp(x)
 				if !seen[x] {
 					seen[x] = true
 					out = append(out, Fact{Expr: x, If: f.If, loads: f.loads, calls: f.calls})
@@ -483,6 +489,28 @@ func (w *World) expandSummaries(fs []Fact, depth int) []Fact {
 		}
 	}
 	return out
+}
+
+// renormCmp restores the canonical form of a comparison after parameters were replaced by arguments (a constant
+// argument may now stand on the left, two non-constant sides of an equality may be out of order).
+func renormCmp(s string) string {
+	p := splitCmp(s)
+	if p == nil {
+		return s
+	}
+	isK := func(x string) bool {
+		if _, ok := parseInt(x); ok {
+			return true
+		}
+		return x == "true" || x == "false" || x == "nil" || strings.HasPrefix(x, "\"")
+	}
+	lc, rc := isK(p[0]), isK(p[2])
+	ops := map[string]token.Token{"==": token.EQL, "!=": token.NEQ, "<": token.LSS, "<=": token.LEQ, ">": token.GTR, ">=": token.GEQ}
+	op, ok := ops[p[1]]
+	if !ok {
+		return s
+	}
+	return normCmp(p[0], op, p[2], lc, rc)
 }
 
 // returnSummary: facts (over the callee's own parameter names) common to all returns of the class.
